@@ -5105,9 +5105,9 @@ class Entity(object, metaclass=EntityMeta):
                                                          % (obj, attr.name, attr))
                         elif isinstance(reverse, Set):
                             if attr not in obj._vals_:
-                                # (a lazy reference of a loaded object: its owner's collection has to be told,
-                                # and to be told again if this delete is undone)
-                                if not attr.lazy or obj._status_ == 'created' or not obj._dbvals_: continue
+                                # (a lazy reference, or an object known only by its primary key: the owner's
+                                # collection - its content, its cached count - has to be told, and to be told
+                                # again if this delete is undone)
                                 attr.load(obj)
                             val = get_val(attr)
                             if val is None: continue
